@@ -3,7 +3,7 @@ from engines.arena_prop import run_arena_property
 
 def run(ctx):
     return run_arena_property(ctx, ["BumpProof.Props.C18", "BumpProof.Props.Hist2@C18"],
-        runs_quick=[('aligned', 200, 100)],
+        runs_quick=[('aligned', 700, 100)],
         runs_thorough=[('aligned', 8000, 200), ('scopes', 2000, 200)],
         fields=(0, 2, 5), extra_oracles=(),
         note='alignment theorems (align_to, align guard, reset_to) on the model + correspondence + position % N oracle on the implementation')
